@@ -105,9 +105,16 @@ def blockfrost_get(service):
         if path == '/blocks/latest':
             return _Resp(200, _json.dumps({'slot': service.slot, 'height': 1, 'hash': '00' * 32, 'epoch': 1}))
         if path.startswith('/addresses/') and path.endswith('/utxos'):
-            if page > 1:
-                return _Resp(200, '[]')
-            return _Resp(200, service.main(path[len('/addresses/'):-len('/utxos')]))
+            # Blockfrost pages its answers (count <= 100 per page): the adapter has to follow the pages
+            doc = service.main(path[len('/addresses/'):-len('/utxos')])
+            count = int((params or {}).get('count') or 100)
+            try:
+                items = _json.loads(doc)
+            except Exception:
+                items = None
+            if not isinstance(items, list):
+                return _Resp(200, doc if page == 1 else '[]')
+            return _Resp(200, _json.dumps(items[(page - 1) * count:page * count]))
         if path.startswith('/scripts/'):
             rest = path[len('/scripts/'):]
             if rest.endswith('/cbor'):
